@@ -281,6 +281,18 @@ def roundtrip(u, part, origin, registry=None):
             out.append(("C20:pickle-changes-unit", {"origin": origin, "unit": facts(u), "restored": facts(w)}))
     except Exception as e:
         out.append((f"C20:pickle-fails:{type(e).__name__}", {"origin": origin, "str": str(u)}))
+    # ... and the text an *array* persists (its own pickling code path): it must denote the unit that was written, also when
+    # the registry gives a default symbol another size
+    try:
+        from unyt import unyt_array
+
+        part.ev()
+        a = unyt_array(np.array([1.0, 2.0]), u)
+        b = pickle.loads(pickle.dumps(a))
+        if not same(b.units, u, 1e-12):
+            out.append(("C20:array-pickle-changes-unit", {"origin": origin, "unit": facts(u), "restored": facts(b.units), "text": str(u)}))
+    except Exception as e:
+        out.append((f"C20:array-pickle-fails:{type(e).__name__}", {"origin": origin, "str": str(u)}))
     return out
 
 
@@ -298,13 +310,15 @@ def _case_arith(case, part):
         reg = UnitRegistry()
         reg.add("code_length", 3.0857e19, Unit("m").dimensions, prefixable=True)
         reg.add("code_mass", 1.989e40, Unit("kg").dimensions)
+        reg.modify("yr", 3.0e7)  # a default symbol given another size: printed text is read against this registry
+        reg.modify("Zsun", 0.02)
     texts = [R.render(a) for a in asts]
     if any(resource_risky(t) for t in texts):
         return out
     try:
         u, v, w = (Unit(t, registry=reg) for t in texts)
         if custom:
-            u = u * Unit("code_length", registry=reg) / Unit("code_mass", registry=reg) ** 2
+            u = u * Unit("code_length", registry=reg) / Unit("code_mass", registry=reg) ** 2 * Unit("yr", registry=reg) / Unit("Zsun", registry=reg)
         x = u * v / w
         s0 = float(x.base_value)
         if not np.isfinite(s0) or s0 == 0 or abs(np.log10(abs(s0))) > 250:
